@@ -479,7 +479,7 @@ fn rv_eq_num(a: &RV, b: &RV) -> bool {
 pub fn run(mut cx: Ctx) -> ! {
     cx.rule = "every string of the bounded families is given to the real Value::parse and to an RFC 8259 reference recogniser/evaluator; every Value of the bounded tree family is serialised (compact and pretty, indents 0..8), the text is checked by the reference and parsed back; states = distinct inputs, transitions = parser/serialiser calls; non-trivial = inputs the reference accepts (value comparison performed) plus all round-trip cases".into();
     let ntok = cx.pick(6, 7);
-    let nnum = cx.pick(6, 8);
+    let nnum = cx.pick(7, 8);
     let nval = cx.pick(4, 5);
     cx.bound("token_strings_max_tokens", ntok);
     cx.bound("number_like_max_len", nnum);
